@@ -167,6 +167,8 @@ impl Worker {
             bump(&mut rm.stats, "probe.split_splice", jr.rlog.split_splice as u64);
             bump(&mut rm.stats, "probe.order_tie", jr.order_tie as u64);
             bump(&mut rm.stats, "probe.getrandom_calls", jr.getrandom_calls as u64);
+            bump(&mut rm.stats, "probe.wall_clock_reads_by_code_under_test", jr.clock_reads as u64);
+            bump(&mut rm.stats, "probe.getpid_reads_by_code_under_test", jr.pid_reads as u64);
             for s in &jr.switched_out_at {
                 bump(&mut rm.stats, &format!("probe.preempted_at.{}", s), 1);
             }
